@@ -521,15 +521,15 @@ theorem fieldOk_pa (name : String) (id : Nat) (so : Bool) (checks : List (Cmp ×
     simp [h6, this]
   · by_cases h18 : (val.drop 6).length < 18
     · have : val.drop 24 = [] := List.drop_eq_nil_of_le (by rw [List.length_drop] at h18; omega)
-      simp [h6, h18, this]
+      simp [h6, this]
     · simp only [h6, h18, if_false]
       cases hd : val.drop (6 + 18) with
       | nil =>
         have : val.drop 24 = [] := hd
-        simp [this]
+        simp
       | cons n b3 =>
         have h24 : val.drop 24 = n :: b3 := hd
-        simp only [h24]
+        simp only
         by_cases hl : b3.length < n
         · simp [hl]; omega
         · by_cases hc : cm ≤ n ∧ n ≤ 20
@@ -541,7 +541,7 @@ theorem fieldOk_pa (name : String) (id : Nat) (so : Bool) (checks : List (Cmp ×
               · have : (b3.length == n + 16) = false := by simp; omega
                 simp [h16, h17, this]
               · have : b3.length = n + 16 := by omega
-                simp [h16, h17, validate, filterUnspecified_isSome, this, Bool.not_and]
+                simp [validate, filterUnspecified_isSome, this, Bool.not_and]
           · have hf : (decide (cm ≤ n) && decide (n ≤ 20)) = false := by
               simp only [Bool.and_eq_false_iff, decide_eq_false_iff_not]; omega
             simp [hl, hc, hf]
@@ -602,12 +602,12 @@ theorem tablesMatch_knobs (k : Knobs) : TablesMatch (Avoids k) (fieldsWith k) ta
     unfold findField at h
     rw [List.find?_eq_none] at h
     simp only [fieldsWith, List.mem_cons, forall_eq_or_imp, beq_iff_eq, List.not_mem_nil, false_imp_iff,
-      forall_const, implies_true, and_true] at h
+      implies_true, and_true] at h
     unfold lookupIn
     rw [List.find?_eq_none]
     simp only [table, Rfc.TransportParams.rfc9000, Rfc.TransportParams.rfc9221, Rfc.TransportParams.s2nExtensions,
       List.cons_append, List.nil_append, List.mem_cons, forall_eq_or_imp, beq_iff_eq, List.not_mem_nil, false_imp_iff,
-      forall_const, implies_true, and_true]
+      implies_true, and_true]
     omega
   · simp only [fieldsWith, List.forall_mem_cons]
     refine ⟨?_, ?_, ?_, ?_, ?_, ?_, ?_, ?_, ?_, ?_, ?_, ?_, ?_, ?_, ?_, ?_, ?_, ?_, ?_, ?_, ?_⟩
@@ -778,7 +778,7 @@ theorem lookupId_append_ne (ps : Params) (id i : Nat) (v : Value) (h : i ≠ id)
   | some p => rfl
   | none =>
     have : ((i, v).1 == id) = false := by simpa using h
-    simp [List.find?_cons, this]
+    simp [this]
 
 theorem lookupId_append_new (ps : Params) (id : Nat) (v : Value)
     (h : (ps.map (fun p => p.1)).contains id = false) :
@@ -792,7 +792,7 @@ theorem lookupId_append_new (ps : Params) (id : Nat) (v : Value)
       rw [List.contains_iff_mem]
       exact List.mem_map.mpr ⟨p, hp, by simpa using hpe⟩
     rw [h] at this; cases this
-  simp [this, List.find?_cons]
+  simp [this]
 
 theorem lookupId_append_old (ps : Params) (id i : Nat) (v w : Value) (h : lookupId ps id = some w) :
     lookupId (ps ++ [(i, v)]) id = some w := by
@@ -1411,7 +1411,7 @@ theorem lookupId_canonOf (ps : Params) : ∀ (gs : List Field) (f : Field), (gs.
         simp only [Option.map_none]
         exact lookupId_canonOf_absent ps gs f.id hnd.1
       | some v =>
-        simp [lookupId, List.find?_cons]
+        simp [lookupId]
     · have hne : g.id ≠ f.id := fun h => hnd.1 (h ▸ List.mem_map.mpr ⟨f, hm, rfl⟩)
       cases hw : wireValue ps g with
       | none => simp only [Option.map_none]; exact ih f hnd.2 hm
